@@ -1,6 +1,6 @@
 (* C20 -- executable model of frappy remote logging (RemoteLogHandler.handle / set_conn_level / check_level,
    Module.setRemoteLogging, Dispatcher.handle_logging / set_all_log_levels / reset_connection /
-   remove_connection) and of LogfileHandler.doRollover with retention (as repaired by 8755e5f, f977176, deef1e5).  No proofs in this file.
+   remove_connection) and of LogfileHandler.doRollover with retention (as repaired by 8755e5f, f977176, deef1e5; handle as repaired by 22ea150).  No proofs in this file.
    OFF and COMLOG come from the generated FV.Gen.C20. *)
 From Coq Require Import List Arith ZArith Bool NArith.
 Import ListNotations.
@@ -100,23 +100,21 @@ Definition set_conn_level (t : table) (m : name) (c : conn) (d : lvdata) : table
 (* a message handed to send_log: (connection, module name, level name) *)
 Definition delivery := (conn * name * name)%type.
 
-(* handle(record): for conn, lev in subscriptions.items(): if record.levelno >= lev: send_log(conn, modname,
-   LEVEL_NAMES[record.levelno], msg) -- the table lookup raises KeyError before anything is sent *)
-Fixpoint handle_loop (m : name) (lv : Z) (l : subs) : list delivery * option exn :=
+(* levelname = LEVEL_NAMES.get(record.levelno) or record.levelname.lower(): a level number without SECoP name is sent
+   under the (lower-cased) name python's logging module gives it; that name is data supplied with the record *)
+Definition record_name (lv : Z) (pyname : name) : name :=
+  match level_name lv with Some nm => nm | None => pyname end.
+
+(* handle(record): for conn, lev in subscriptions.items(): if record.levelno >= lev: send_log(conn, modname, levelname, msg) *)
+Fixpoint handle_loop (m nm : name) (lv : Z) (l : subs) : list delivery :=
   match l with
-  | [] => ([], None)
-  | (c, x) :: r =>
-      if Z.leb x lv then
-        match level_name lv with
-        | None => ([], Some EKey)
-        | Some nm => let '(out, e) := handle_loop m lv r in ((c, m, nm) :: out, e)
-        end
-      else handle_loop m lv r
+  | [] => []
+  | (c, x) :: r => if Z.leb x lv then (c, m, nm) :: handle_loop m nm lv r else handle_loop m nm lv r
   end.
-Definition handle (t : table) (m : name) (lv : Z) : list delivery * option exn :=
+Definition handle (t : table) (m : name) (lv : Z) (pyname : name) : list delivery :=
   match get_mod m t with
-  | None => ([], None)
-  | Some l => handle_loop m lv l
+  | None => []
+  | Some l => handle_loop m (record_name lv pyname) lv l
   end.
 
 (* ------------------------------------------------------------------ Dispatcher *)
@@ -153,14 +151,14 @@ Definition reset_connection (mods : list name) (t : table) (c : conn) : table * 
 
 Inductive op :=
 | OLogging (c : conn) (spec : option name) (d : lvdata)   (* request `logging <spec> <level>` *)
-| OEmit (m : name) (lv : Z)                                (* a record of module m with level number lv *)
+| OEmit (m : name) (lv : Z) (pyname : name)                (* a record of module m with level number lv; pyname: record.levelname.lower() *)
 | OIdent (c : conn)                                        (* request `*IDN?` *)
 | ODisconnect (c : conn).                                  (* remove_connection *)
 
 Definition step (mods : list name) (t : table) (o : op) : table * (list delivery * option exn) :=
   match o with
   | OLogging c spec d => let '(t', e) := handle_logging mods t c spec d in (t', ([], e))
-  | OEmit m lv => (t, handle t m lv)
+  | OEmit m lv py => (t, (handle t m lv py, None))
   | OIdent c => let '(t', e) := reset_connection mods t c in (t', ([], e))
   | ODisconnect c => let '(t', e) := reset_connection mods t c in (t', ([], e))
   end.
